@@ -261,9 +261,11 @@ fn settle(base: usize) -> Result<(), String> {
 
 /// the Python usage pattern: one loader object, `set_epoch` + `__iter__` at the start of every
 /// epoch; the previous epoch was abandoned after `first` batches
-fn run_reused(c: &Case, f: &Files, v: &Vary, other_epoch: usize, first: usize) -> Result<Vec<Vec<Fp>>, String> {
+fn run_reused(c: &Case, f: &Files, v: &Vary, other_epoch: usize, first_ff: usize, first: usize) -> Result<Vec<Vec<Fp>>, String> {
     let base = thread_count();
-    let mut handle = open(c, f, v, other_epoch)?;
+    // the first iteration may use another fast-forward offset (and the same or another epoch)
+    let v1 = Vary { ff: first_ff, ..v.clone() };
+    let mut handle = open(c, f, &v1, other_epoch)?;
     let _ = drain(&mut handle, first)?;
     if let Some(ch) = v.chaos {
         text_utils::verif::install(Some(Chaos::new(ch ^ 0x55) as Arc<dyn Controller>));
@@ -299,9 +301,9 @@ const LETTERS: &[&str] = &["a", "b", "c", "d"];
 impl Prop for C08 {
     type Case = Case;
     const ID: &'static str = "C08";
-    const RULE: &'static str = "1-3 jsonl files of 0-12 clean lines (occasionally up to 5 files of up to 60 lines, world size up to 9, 12 threads, buffer 32) over a 4-letter alphabet (each line carries a unique file:line marker; ~5% malformed lines) x strategy x seed (or none given: the loader's default, without shuffle) x epoch x skip x limit x world size 1..=4 x fast-forward k x num_threads 0..=4 x buffer 0..=4 x sort/shuffle/prefetch/batch limit/limit type x pipeline grammar (preprocessing in {none, clean, whitespace corruption, switch, spelling corruption with a generated 3-gram table with tied frequencies, chain}, task whitespace correction or generation with a byte tokenizer, postprocessing in {none, clip length, token masking}); every case runs the real TrainLoader ~10 times through the verif driver (reference run: threads 0, world 1, k 0, no sort/shuffle) under a chaos controller and checks: identical batches for other (threads, buffer), for a fresh loader and for the same loader object re-iterated (set_epoch + __iter__) after another, partly consumed epoch; same item multiset for any batching; per-rank streams disjoint with union = reference (positional when unshuffled); fast_forward(k) = reference after its first k; skip=m / limit=m split; every marker has one fingerprint in all runs. Non-trivial: randomised preprocessing, >= 4 items and at least two of {world > 1, k > 0, threads > 0, shuffle}. Distinct = distinct serialised case.";
+    const RULE: &'static str = "1-3 jsonl files of 0-12 clean lines (occasionally up to 5 files of up to 60 lines, world size up to 9, 12 threads, buffer 32) over a 4-letter alphabet (each line carries a unique file:line marker; ~5% malformed lines) x strategy x seed (or none given: the loader's default, without shuffle) x epoch x skip x limit x world size 1..=4 x fast-forward k x num_threads 0..=4 x buffer 0..=4 x sort/shuffle/prefetch/batch limit/limit type x pipeline grammar (preprocessing in {none, clean, whitespace corruption, switch, spelling corruption with a generated 3-gram table with tied frequencies, chain}, task whitespace correction or generation with a byte tokenizer, postprocessing in {none, clip length, token masking}); every case runs the real TrainLoader ~10 times through the verif driver (reference run: threads 0, world 1, k 0, no sort/shuffle) under a chaos controller and checks: identical batches for other (threads, buffer), for a fresh loader and for the same loader object re-iterated (set_epoch + set_fast_forward + __iter__) after another or the same epoch with the same or another fast-forward offset, abandoned after 0-3 batches; same item multiset for any batching; per-rank streams disjoint with union = reference (positional when unshuffled); fast_forward(k) = reference after its first k; skip=m / limit=m split; every marker has one fingerprint in all runs. Non-trivial: randomised preprocessing, >= 4 items and at least two of {world > 1, k > 0, threads > 0, shuffle}. Distinct = distinct serialised case.";
     const HANG_SECS: u64 = 60;
-    const ESSENTIAL: &'static [&'static str] = &["ws_corruption", "spelling_corruption", "switch", "world>1", "ff>0", "threads>0", "shuffle", "sort", "malformed_lines", "weighted", "interleaved", "skip_limit", "token_masking", "reused_loader", "no_seed"];
+    const ESSENTIAL: &'static [&'static str] = &["ws_corruption", "spelling_corruption", "switch", "world>1", "ff>0", "threads>0", "shuffle", "sort", "malformed_lines", "weighted", "interleaved", "skip_limit", "token_masking", "reused_loader", "no_seed", "reiterated_unread_same_epoch"];
 
     fn budget(tier: Tier) -> Budget {
         match tier {
@@ -346,7 +348,7 @@ impl Prop for C08 {
             (files, 0u8..3, prop_oneof![5 => (0u64..6).prop_map(Some), 1 => Just(None)], 0usize..3),
             (0usize..6, prop_oneof![2 => Just(None), 1 => (0usize..30).prop_map(Some)], prop_oneof![10 => 1usize..=4, 1 => 5usize..=9], prop_oneof![8 => 0usize..8, 1 => 8usize..40]),
             (prop_oneof![10 => 0u8..=4, 1 => 5u8..=12], prop_oneof![10 => 0usize..=4, 1 => 5usize..=32], any::<bool>(), any::<bool>(), 0usize..=3, prop_oneof![10 => 1usize..=6, 1 => 7usize..=40], any::<bool>()),
-            (pipeline, any::<u64>(), 0usize..20),
+            (pipeline, any::<u64>(), 0usize..24),
         )
             .prop_map(|((files, strategy, seed, epoch), (skip, limit, world, ff), (threads, buffer, sort, shuffle, prefetch, batch_limit, padded), (pipeline, chaos, split_at))| {
                 let mut files = files;
@@ -461,9 +463,14 @@ impl Prop for C08 {
         // consumed, yields what a fresh loader yields
         {
             let v = Vary { threads: c.threads, buffer: c.buffer, chaos: Some(c.chaos.wrapping_add(7)), ..cfg.clone() };
-            let other = c.epoch + 1 + (c.split_at % 2);
-            match run_reused(c, &f, &v, other, c.split_at % 4) {
-                Ok(b) => ensure!(out, b == b0, "a loader that was iterated for epoch {other} (abandoned after {} batches) and then restarted for epoch {} differs from a fresh loader: {:?} vs {:?}", c.split_at % 4, c.epoch,
+            // the earlier iteration: another epoch or (one case in three) the same epoch, with the
+            // same or another fast-forward offset, abandoned after 0-3 batches
+            let (d_epoch, d_ff, first) = (c.split_at % 3, (c.split_at / 3) % 2, (c.split_at / 6) % 4);
+            let other = if d_epoch == 2 { c.epoch } else { c.epoch + 1 + d_epoch };
+            let first_ff = if d_ff == 0 { v.ff } else { v.ff + 1 + c.split_at % 3 };
+            out.label_if(other == c.epoch && first_ff != v.ff && first == 0, "reiterated_unread_same_epoch");
+            match run_reused(c, &f, &v, other, first_ff, first) {
+                Ok(b) => ensure!(out, b == b0, "a loader that was iterated for epoch {other} with fast_forward {first_ff} (abandoned after {} batches) and then restarted for epoch {} with fast_forward {} differs from a fresh loader: {:?} vs {:?}", first, c.epoch, v.ff,
                     b.iter().map(|x| x.iter().map(marker).collect::<Vec<_>>()).collect::<Vec<_>>(), b0.iter().map(|x| x.iter().map(marker).collect::<Vec<_>>()).collect::<Vec<_>>()),
                 Err(e) => {
                     out.fail(e);
